@@ -1,5 +1,5 @@
 """UG unsafe guards, AB allocation bounds, U8 encoder bytes, PX explicit panics (C01, C14)."""
-from facts import callee_of, op_local, op_place, place_key, resolve_ref, value_def, field_path, place_str
+from facts import op_const, callee_of, op_local, op_place, place_key, resolve_ref, value_def, field_path, place_str
 from common import loc_of
 import ed
 
@@ -1180,6 +1180,44 @@ def discharge_panic(facts, b, bb, t, c, is_unwrap):
                     c3 = callee_of(r)
                     if c3 and c3['name'] == 'index' and 'RangeInclusive' in c3['full']:
                         return True, '', 'length of a `start..=end` slice is never 0 (exception: slice::index panics first)'
+    # (3b) the same fact in pattern form: the `[]` arm of a match on a `..=` slice (`len == 0` edge of the pattern test)
+    def incl_slice_len(l):
+        vd_ = value_def(b, l) if l is not None else None
+        if vd_ and vd_[0] == 'assign' and vd_[1]['rv']['k'] == 'unop' and vd_[1]['rv']['op'] == 'PtrMetadata':
+            r_ = _root_call(b, op_local(vd_[1]['rv']['a']))
+            if r_ is not None:
+                c3_ = callee_of(r_)
+                return bool(c3_ and c3_['name'] == 'index' and 'RangeInclusive' in c3_['full'])
+        return False
+    for db in sorted(b.dom.get(bb, [])):
+        tt = b.term(db)
+        if tt['k'] != 'switch':
+            continue
+        dl = op_local(tt['discr'])
+        vd = value_def(b, dl) if dl is not None else None
+        if not (vd and vd[0] == 'assign' and vd[1]['rv']['k'] == 'binop' and vd[1]['rv']['op'] in ('Eq', 'Ne')):
+            continue
+        rv = vd[1]['rv']
+        sides = [(rv['a'], rv['b']), (rv['b'], rv['a'])]
+        for x, y in sides:
+            lx, ly = op_local(x), op_local(y)
+            cy = op_const(y)
+            if cy is None and ly is not None:
+                vy = value_def(b, ly)
+                if vy and vy[0] == 'assign' and vy[1]['rv']['k'] == 'use':
+                    cy = op_const(vy[1]['rv']['op'])
+            if cy is None or not incl_slice_len(lx):
+                continue
+            try:
+                is_zero = int(cy.get('v', cy) if isinstance(cy, dict) else cy) == 0
+            except (TypeError, ValueError):
+                is_zero = False
+            if not is_zero:
+                continue
+            # the edge on which `len == 0` holds: Eq -> non-zero labels/otherwise ; Ne -> label 0
+            holds = [tg for lab, tg in b.edges(db) if (lab != 0) == (rv['op'] == 'Eq')]
+            if holds and all(b.dominates(z, bb) for z in holds):
+                return True, '', 'an empty `start..=end` slice does not exist (slice::index panics first): the `[]` arm is dead'
     return False, 'explicit panic (`%s`) on a path that hostile input may reach; no enumerated guard discharges it' % c['full'], None
 
 
